@@ -402,7 +402,76 @@ fn pump<X, I: Iterator<Item = X>>(
     }
 }
 
+/// A non-blocking iterator that is kept across a pause: `next()` until it reports None (or `max`
+/// items), then `mid()` (the caller sends a value meanwhile), then up to two more `next()` calls on
+/// the same iterator.  Every `next()` is one try_recv in the model, also after a None.
+fn pump_across<X, I: Iterator<Item = X>>(
+    mut it: I,
+    max: usize,
+    conv: fn(X) -> Seen,
+    tick: &dyn Fn() -> u64,
+    emit: &mut dyn FnMut(Option<Seen>, u64, u64),
+    mid: &mut dyn FnMut(),
+) {
+    let mut n = 0;
+    while n < max {
+        let t0 = tick();
+        let r = it.next().map(conv);
+        let t1 = tick();
+        let stop = r.is_none();
+        emit(r, t0, t1);
+        n += 1;
+        if stop {
+            break;
+        }
+    }
+    mid();
+    for _ in 0..2 {
+        let t0 = tick();
+        let r = it.next().map(conv);
+        let t1 = tick();
+        let stop = r.is_none();
+        emit(r, t0, t1);
+        if stop {
+            break;
+        }
+    }
+}
+
 impl Rx {
+    pub fn try_iter_across(
+        &mut self,
+        max: usize,
+        variant: u8,
+        tick: &dyn Fn() -> u64,
+        emit: &mut dyn FnMut(Option<Seen>, u64, u64),
+        mid: &mut dyn FnMut(),
+    ) -> Option<()> {
+        match self {
+            Rx::B(r) => Some(if variant % 2 == 0 {
+                pump_across(r.try_iter(), max, conv_t, tick, emit, mid)
+            } else {
+                pump_across((&*r).into_iter(), max, conv_t, tick, emit, mid)
+            }),
+            Rx::M(r) => Some(if variant % 2 == 0 {
+                pump_across(r.try_iter(), max, conv_t, tick, emit, mid)
+            } else {
+                pump_across((&*r).into_iter(), max, conv_t, tick, emit, mid)
+            }),
+            Rx::BU(r) => Some(if variant % 2 == 0 {
+                pump_across((&*r).into_iter(), max, conv_t, tick, emit, mid)
+            } else {
+                pump_across(r.try_iter_with(|t| t.view()), max, conv_s, tick, emit, mid)
+            }),
+            Rx::MU(r) => Some(if variant % 2 == 0 {
+                pump_across((&*r).into_iter(), max, conv_t, tick, emit, mid)
+            } else {
+                pump_across(r.try_iter_with(|t| t.view()), max, conv_s, tick, emit, mid)
+            }),
+            _ => None,
+        }
+    }
+
     pub fn kind(&self) -> RxKind {
         match self {
             Rx::B(_) => RxKind::B,
